@@ -306,6 +306,102 @@ theorem cos_om_lt_neg_one {φ δ c0 : ℝ} (hc0' : -(Real.pi / 2) ≤ c0)
   simp only [Real.cos_pi_div_two, Real.sin_pi_div_two] at h
   linarith
 
+/-- Lower half of `cos_om_bounds` under the sharp hypothesis on `|φ + δ|`. -/
+theorem cos_om_ge_neg_one {φ δ c0 : ℝ} (hc0 : c0 ≤ 0) (h : |φ + δ| ≤ Real.pi / 2 + c0)
+    (hcos : 0 < Real.cos φ * Real.cos δ) :
+    -1 ≤ (Real.sin c0 - Real.sin φ * Real.sin δ) / (Real.cos φ * Real.cos δ) := by
+  have hpi := Real.pi_pos
+  rw [le_div_iff₀ hcos]
+  have h2 : Real.cos (Real.pi / 2 + c0) ≤ Real.cos |φ + δ| :=
+    Real.cos_le_cos_of_nonneg_of_le_pi (abs_nonneg _) (by linarith) h
+  rw [Real.cos_abs, Real.cos_add, Real.cos_add] at h2
+  simp only [Real.cos_pi_div_two, Real.sin_pi_div_two] at h2
+  linarith
+
+/-- Upper half: the polar-night side never occurs while `|φ − δ| ≤ 90°`. -/
+theorem cos_om_le_one {φ δ c0 : ℝ} (hc0 : c0 ≤ 0) (hc0' : -Real.pi ≤ c0) (h : |φ - δ| ≤ Real.pi / 2)
+    (hcos : 0 < Real.cos φ * Real.cos δ) :
+    (Real.sin c0 - Real.sin φ * Real.sin δ) / (Real.cos φ * Real.cos δ) ≤ 1 := by
+  rw [div_le_one hcos]
+  have h2 : 0 ≤ Real.cos (φ - δ) := Real.cos_nonneg_of_mem_Icc ⟨neg_le_of_abs_le h, le_of_abs_le h⟩
+  rw [Real.cos_sub] at h2
+  have h3 : Real.sin c0 ≤ 0 := Real.sin_nonpos_of_nonpos_of_neg_pi_le hc0 hc0'
+  linarith
+
+/-- `cos_om_lt_neg_one` for either hemisphere: only `|φ + δ|` matters. -/
+theorem cos_om_lt_neg_one_abs {φ δ c0 : ℝ} (hc0' : -(Real.pi / 2) ≤ c0)
+    (h1 : Real.pi / 2 + c0 < |φ + δ|) (h2 : |φ + δ| ≤ Real.pi) (hcos : 0 < Real.cos φ * Real.cos δ) :
+    (Real.sin c0 - Real.sin φ * Real.sin δ) / (Real.cos φ * Real.cos δ) < -1 := by
+  rw [div_lt_iff₀ hcos]
+  have h : Real.cos |φ + δ| < Real.cos (Real.pi / 2 + c0) :=
+    Real.cos_lt_cos_of_nonneg_of_le_pi (by linarith) h2 h1
+  rw [Real.cos_abs, Real.cos_add, Real.cos_add] at h
+  simp only [Real.cos_pi_div_two, Real.sin_pi_div_two] at h
+  linarith
+
+/-- The `acos` argument of the sunrise equation for a latitude the code accepts and a declination
+    within ±23.44°: its denominator is positive, and it is out of range exactly in the midnight-sun
+    region `|φ + δ| > 90° − 0.83° − dip` (never on the polar-night side). -/
+theorem rise_region_iff (lat alt δ : ℝ) (hlat : |lat| ≤ 66.55) (_halt : 0 ≤ alt)
+    (hdip : 0.83 + 2.076 * Real.sqrt alt / 60 ≤ 90) (hδ : |δ| ≤ 23.44 * (Real.pi / 180)) :
+    0 < Real.cos (lat * (Real.pi / 180)) * Real.cos δ ∧
+    (1 < |rise_cos_om lat (Real.sin δ) (Real.cos δ) alt| ↔
+      90 - 0.83 - 2.076 * Real.sqrt alt / 60 < |lat + δ * (180 / Real.pi)|) := by
+  have hpi := Real.pi_pos
+  have hsq := Real.sqrt_nonneg alt
+  have hl := abs_le.mp hlat
+  have hδl := abs_le.mp hδ
+  have hφb : -(66.55 * (Real.pi / 180)) ≤ lat * (Real.pi / 180) ∧ lat * (Real.pi / 180) ≤ 66.55 * (Real.pi / 180) := by
+    constructor <;> nlinarith [hl.1, hl.2]
+  have hcφ : 0 < Real.cos (lat * (Real.pi / 180)) :=
+    Real.cos_pos_of_mem_Ioo ⟨by nlinarith [hφb.1], by nlinarith [hφb.2]⟩
+  have hcδ : 0 < Real.cos δ := Real.cos_pos_of_mem_Ioo ⟨by nlinarith [hδl.1], by nlinarith [hδl.2]⟩
+  have hcos := mul_pos hcφ hcδ
+  refine ⟨hcos, ?_⟩
+  obtain ⟨c0, hc0v⟩ : ∃ c0 : ℝ, c0 = (-0.83 - 2.076 * Real.sqrt alt / 60) * (Real.pi / 180) := ⟨_, rfl⟩
+  have hc0le : c0 ≤ 0 := by
+    rw [hc0v]; apply mul_nonpos_of_nonpos_of_nonneg _ (by positivity)
+    linarith [show (0:ℝ) ≤ 2.076 * Real.sqrt alt / 60 by positivity]
+  have hc0ge : -(Real.pi / 2) ≤ c0 := by
+    rw [hc0v]
+    have : (0.83 + 2.076 * Real.sqrt alt / 60) * (Real.pi / 180) ≤ 90 * (Real.pi / 180) :=
+      mul_le_mul_of_nonneg_right hdip (by positivity)
+    linarith
+  have hco : rise_cos_om lat (Real.sin δ) (Real.cos δ) alt =
+      (Real.sin c0 - Real.sin (lat * (Real.pi / 180)) * Real.sin δ) / (Real.cos (lat * (Real.pi / 180)) * Real.cos δ) := by
+    unfold rise_cos_om rise_h0 psin pcos pradians psqrt
+    rw [hc0v]; norm_num
+  obtain ⟨φ, hφv⟩ : ∃ φ : ℝ, φ = lat * (Real.pi / 180) := ⟨_, rfl⟩
+  rw [← hφv] at hco hcos hφb
+  rw [hco]
+  have hsub : |φ - δ| ≤ Real.pi / 2 := by
+    rw [abs_le]; constructor <;> nlinarith [hφb.1, hφb.2, hδl.1, hδl.2]
+  have hle1 := cos_om_le_one hc0le (by linarith) hsub hcos
+  have hsumv : φ + δ = (lat + δ * (180 / Real.pi)) * (Real.pi / 180) := by rw [hφv]; field_simp
+  have hreg : (90 - 0.83 - 2.076 * Real.sqrt alt / 60 < |lat + δ * (180 / Real.pi)|) ↔
+      Real.pi / 2 + c0 < |φ + δ| := by
+    rw [hsumv, abs_mul, abs_of_pos (by positivity : (0:ℝ) < Real.pi / 180), hc0v]
+    constructor
+    · intro h
+      have := mul_lt_mul_of_pos_right h (by positivity : (0:ℝ) < Real.pi / 180)
+      linarith
+    · intro h
+      by_contra hn
+      rw [not_lt] at hn
+      have := mul_le_mul_of_nonneg_right hn (by positivity : (0:ℝ) ≤ Real.pi / 180)
+      linarith
+  have hsumpi : |φ + δ| ≤ Real.pi := by
+    rw [abs_le]; constructor <;> nlinarith [hφb.1, hφb.2, hδl.1, hδl.2]
+  rw [hreg]
+  constructor
+  · intro h
+    by_contra hR
+    have hge := cos_om_ge_neg_one hc0le (not_lt.mp hR) hcos
+    exact absurd (abs_le.mpr ⟨hge, hle1⟩) (not_le.mpr h)
+  · intro hR
+    have hlt := cos_om_lt_neg_one_abs hc0ge hR hsumpi hcos
+    rw [abs_of_neg (by linarith)]; linarith
+
 theorem rise_limit_val : rise_limit = 66.55 := by
   unfold rise_limit; rw [aReduce_of_abs_lt (by norm_num)]; norm_num
 theorem aNeg_rise_limit : aNeg rise_limit = -66.55 := by
@@ -391,5 +487,101 @@ theorem season_angle_bound : Real.arcsin (0.0000025 / 58) * (180 / Real.pi) ≤ 
   calc Real.arcsin (0.0000025 / 58) * (180 / Real.pi) ≤ c * (180 / Real.pi) :=
         mul_le_mul_of_nonneg_right h1 (by positivity)
     _ = 0.0000025 := by rw [hc]; field_simp
+
+/-! ### the passes of times_rise_transit_set -/
+
+theorem rts_check_value_range {m r : ℝ} (h : rts_check_value m = some r) : 0 ≤ r ∧ r ≤ 1 := by
+  unfold rts_check_value at h
+  obtain ⟨s', hs'⟩ := loopFuel_exit _ _ _ _ h
+  by_cases hn : s' < 0
+  · rw [rts_check_step_neg hn] at hs'; simp at hs'
+  · by_cases hg : 1 < s'
+    · rw [rts_check_step_gt hg] at hs'; simp at hs'
+    · rw [rts_check_step_mid (not_lt.mp hn) (not_lt.mp hg)] at hs'
+      simp only [Sum.inr.injEq] at hs'
+      rw [← hs']; exact ⟨not_lt.mp hn, not_lt.mp hg⟩
+
+theorem rts_check_value_mid {m : ℝ} (h0 : 0 ≤ m) (h1 : m ≤ 1) : rts_check_value m = some m := by
+  unfold rts_check_value loopFuel
+  rw [rts_check_step_mid h0 h1]
+
+/-- One pass moves the transit estimate by at most half a day. -/
+theorem rts_iter_transit_bound {lon lat a1 d1 a2 d2 a3 d3 h0 dt th0 m0 m1 m2 n0 n1 n2 : ℝ}
+    (h : rts_iter lon lat a1 d1 a2 d2 a3 d3 h0 dt th0 (m0, m1, m2) = .ok (n0, n1, n2)) :
+    |n0 - m0| ≤ 1 / 2 := by
+  unfold rts_iter at h
+  simp only at h
+  split at h <;> try (simp at h; done)
+  split at h <;> try (simp at h; done)
+  split at h <;> try (simp at h; done)
+  split at h <;> try (simp at h; done)
+  simp only [Except.ok.injEq, Prod.mk.injEq] at h
+  obtain ⟨h0', _, _⟩ := h
+  rw [← h0']
+  obtain ⟨hl, hu, _⟩ := wrap180_range
+    (aSub (aSub (aAdd th0 (360.985647 * m0)) lon) (rts_interpol (m0 + dt / 86400.0) a1 a2 a3))
+  rw [abs_le]
+  constructor <;> norm_num <;> linarith
+
+/-- The hour angle `H0` of the start estimates is in [0°, 180°]. -/
+theorem rts_hh0_range (c : ℝ) :
+    0 ≤ aToPositive (aOfRadians (pacos c)) ∧ aToPositive (aOfRadians (pacos c)) ≤ 180 := by
+  have hpi := Real.pi_pos
+  have h0 : 0 ≤ pdegrees (pacos c) := by
+    unfold pdegrees pacos; exact mul_nonneg (Real.arccos_nonneg c) (by positivity)
+  have h1 : pdegrees (pacos c) ≤ 180 := by
+    unfold pdegrees pacos
+    calc Real.arccos c * (180 / Real.pi) ≤ Real.pi * (180 / Real.pi) :=
+          mul_le_mul_of_nonneg_right (Real.arccos_le_pi c) (by positivity)
+      _ = 180 := by field_simp
+  have hr : aOfRadians (pacos c) = pdegrees (pacos c) := by
+    unfold aOfRadians; exact aReduce_of_abs_lt (by rw [abs_lt]; constructor <;> linarith)
+  have hp : aToPositive (pdegrees (pacos c)) = pdegrees (pacos c) := by
+    unfold aToPositive plt
+    have : ¬ (pdegrees (pacos c) < 0.0) := by norm_num; exact h0
+    simp only [this, decide_false]; rfl
+  rw [hr, hp]; exact ⟨h0, h1⟩
+
+/-- Anatomy of a successful `rts_times`: the three start estimates (`check_value` of
+    `m0`, `m0 ∓ H0/360`), two passes, the results in hours. -/
+theorem rts_times_ok {lon lat a1 d1 a2 d2 a3 d3 h0 dt th0 c r t s : ℝ}
+    (h : rts_times lon lat a1 d1 a2 d2 a3 d3 h0 dt th0 c = .ok (r, t, s)) :
+    ∃ m0 b0 b1 b2 s1 n0 n1 n2,
+      aDivF (aSub (aAdd a2 lon) th0) 360.0 = .ok m0 ∧
+      rts_check_value m0 = some b0 ∧
+      rts_check_value (m0 - aToPositive (aOfRadians (pacos c)) / 360.0) = some b1 ∧
+      rts_check_value (m0 + aToPositive (aOfRadians (pacos c)) / 360.0) = some b2 ∧
+      rts_iter lon lat a1 d1 a2 d2 a3 d3 h0 dt th0 (b0, b1, b2) = .ok s1 ∧
+      rts_iter lon lat a1 d1 a2 d2 a3 d3 h0 dt th0 s1 = .ok (n0, n1, n2) ∧
+      r = n1 * 24 ∧ t = n0 * 24 ∧ s = n2 * 24 := by
+  unfold rts_times at h
+  simp only at h
+  cases hm : aDivF (aSub (aAdd a2 lon) th0) 360.0 with
+  | error e => rw [hm] at h; simp at h
+  | ok m0 =>
+    rw [hm] at h; simp only at h
+    cases hb0 : rts_check_value m0 with
+    | none => rw [hb0] at h; simp at h
+    | some b0 =>
+      cases hb1 : rts_check_value (m0 - aToPositive (aOfRadians (pacos c)) / 360.0) with
+      | none => rw [hb0, hb1] at h; simp at h
+      | some b1 =>
+        cases hb2 : rts_check_value (m0 + aToPositive (aOfRadians (pacos c)) / 360.0) with
+        | none => rw [hb0, hb1, hb2] at h; simp at h
+        | some b2 =>
+          rw [hb0, hb1, hb2] at h; simp only at h
+          cases hs1 : rts_iter lon lat a1 d1 a2 d2 a3 d3 h0 dt th0 (b0, b1, b2) with
+          | error e => rw [hs1] at h; simp at h
+          | ok s1 =>
+            rw [hs1] at h; simp only at h
+            cases hs2 : rts_iter lon lat a1 d1 a2 d2 a3 d3 h0 dt th0 s1 with
+            | error e => rw [hs2] at h; simp at h
+            | ok s2 =>
+              obtain ⟨n0, n1, n2⟩ := s2
+              rw [hs2] at h
+              simp only [Except.ok.injEq, Prod.mk.injEq] at h
+              obtain ⟨hr, ht, hs⟩ := h
+              refine ⟨m0, b0, b1, b2, s1, n0, n1, n2, rfl, hb0, hb1, hb2, hs1, hs2, ?_, ?_, ?_⟩ <;>
+                [rw [← hr]; rw [← ht]; rw [← hs]] <;> norm_num
 
 end Pymeeus.Refine.SunEvents
